@@ -110,3 +110,46 @@ Example assign_example :
   text (bf (nodes (render g [] 3) [NAssign [120]%N (ELit (VInt 42)); NOutput (EPath [120]%N [])] c empty_buf))
   = [52; 50]%N.
 Proof. vm_compute. split; reflexivity. Qed.
+
+(** * with *)
+
+Lemma lookup_in_pushed_scope c x v :
+  lookup (set_scopes c (dict_set x v [] :: scopes c)) x = Some v.
+Proof.
+  unfold lookup. cbn [scopes set_scopes chain_lookup]. rewrite assoc_set_same. reflexivity.
+Qed.
+
+Lemma set_scopes_same c : set_scopes c (scopes c) = c.
+Proof. destruct c; reflexivity. Qed.
+
+(** `{% with x: e %}{{ x }}{% endwith %}`: when [e] evaluates to [v] at the
+    caller's context and the scope depth limit is not hit, the block writes [v]
+    and the context afterwards is the caller's, identically - the binding of [x]
+    exists only inside the block, whatever [x] was bound to outside. *)
+Theorem with_then_output g ld fuel x e v c b :
+  eval (S (S fuel)) c e = EOk v ->
+  (depth_limit g <? scope_size c)%Z = false ->
+  render g ld (S (S (S fuel))) (NWith [(x, e)] [NOutput (EPath x [])]) c b
+  = mk (st (write_value (EOk v) c b)) c (bf (write_value (EOk v) c b)).
+Proof.
+  intros He Hd.
+  change (render g ld (S (S (S fuel))))
+    with (render_step g ld (eval (S (S fuel))) (render g ld (S (S fuel)))).
+  cbn [render_step]. unfold eval_namespace. cbn [eval_pairs]. rewrite He.
+  cbn [dict_of_pairs]. unfold extend. rewrite Hd.
+  unfold block. cbn [block_blank node_blank]. rewrite Bool.andb_false_r.
+  cbn [nodes].
+  change (render g ld (S (S fuel))) with (render_step g ld (eval (S fuel)) (render g ld (S fuel))).
+  cbn [render_step]. cbn [eval eval_step eval_segs]. rewrite lookup_in_pushed_scope. cbn [walk].
+  unfold write_value. destruct (to_liquid_string v); cbn [st cx bf mk pop_scope scopes set_scopes tl].
+  - destruct c; reflexivity.
+  - destruct c; reflexivity.
+Qed.
+
+Example with_example :
+  let g := {| suppress := false; depth_limit := 30 |} in
+  let c := fresh_ctx 30 [] [] in
+  eval 2 c (ELit (VInt 42)) = EOk (VInt 42) /\ (depth_limit g <? scope_size c)%Z = false /\
+  text (bf (render g [] 3 (NWith [([120]%N, ELit (VInt 42))] [NOutput (EPath [120]%N [])]) c empty_buf))
+  = [52; 50]%N.
+Proof. vm_compute. repeat split; reflexivity. Qed.
